@@ -201,9 +201,18 @@ def w_step(n0: int, slots: int, cmd: int, a: int, b: int, top_sticky: bool) -> s
     return _step_case(rt.sel(n0, 4), rt.sel(slots, 120), rt.sel(cmd, 6), rt.sel(a, 3), rt.sel(b, 4), rt.selb(top_sticky))
 
 
+def w_step_q(n0: int, slots: int, cmd: int, a: int, b: int) -> str:
+    """
+    pre: PARTITION is None or cmd == PARTITION
+    pre: 0 <= n0 <= 3 and 0 <= slots < 40 and 0 <= cmd < 6 and 0 <= a < 3 and 0 <= b < 2
+    post: _ == ''
+    """
+    return _step_case(rt.sel(n0, 4), rt.sel(slots, 40) * 3, rt.sel(cmd, 6), rt.sel(a, 3), rt.sel(b, 2), True)
+
+
 def w_hist(c0: int, c1: int, c2: int, a: int, b: int) -> str:
     """
-    pre: PARTITION is None or c0 == PARTITION
+    pre: PARTITION is None or (c0 == PARTITION[0] and b < PARTITION[1])
     pre: 0 <= c0 < 6 and 0 <= c1 < 6 and 0 <= c2 < 6 and 0 <= a < 3 and 0 <= b < 4
     post: _ == ''
     """
@@ -213,10 +222,10 @@ def w_hist(c0: int, c1: int, c2: int, a: int, b: int) -> str:
 def obligations(tier):
     enc = K.PUT_FUNCS + K.LIST_FUNCS + K.RESTORE_FUNCS + K.RM_FUNCS + K.EMPTY_FUNCS
     return [
-        CH('W_inductive_step', MOD, 'w_step', timeout=1800, partitions=list(range(6)), engine='W', regime='selector',
+        CH('W_inductive_step', MOD, 'w_step' if tier == 'thorough' else 'w_step_q', timeout=1800, partitions=list(range(6)), engine='W', regime='selector',
            encodes=enc, stubs=K.STUBS,
-           bounds='pre-state: 0..3 entries x 120 placements (dir, name, trash dir, date); 6 commands x 3 x 4 arguments; .Trash sticky or absent'),
-        CH('W_histories_len_5', MOD, 'w_hist', timeout=1800, partitions=list(range(6)), engine='W', regime='selector',
+           bounds='pre-state: 0..3 entries x 120 placements (dir, name, trash dir, date; quick: every third placement) ; 6 commands x 3 x 4 arguments (quick 3 x 2); .Trash sticky or absent (quick: sticky)'),
+        CH('W_histories_len_5', MOD, 'w_hist', timeout=1800, partitions=[(c, 4 if tier == 'thorough' else 1) for c in range(6)], engine='W', regime='selector',
            encodes=enc, stubs=K.STUBS,
-           bounds='2 puts then every sequence of 3 commands out of 6 kinds x 3 x 4 argument seeds; trash-list checked after every step'),
+           bounds='2 puts then every sequence of 3 commands out of 6 kinds x 3 x 4 argument seeds (quick: 3 x 1); trash-list checked after every step'),
     ]
